@@ -242,7 +242,15 @@ func (env *Env) Build(idx int, fs FuncSpec, extra ...am.Arg) (*am.Func, error) {
 	// the caller's option slice is handed to NewFunc as it is (spare capacity included)
 	opts := extra
 	if fs.Once {
-		opts = append(opts, am.FuncOnce())
+		// the function options are independent of one another: a name given before or after FuncOnce changes nothing
+		switch idx % 3 {
+		case 0:
+			opts = append(opts, am.FuncOnce(), am.FuncName(fmt.Sprintf("fn%d", idx)))
+		case 1:
+			opts = append(opts, am.FuncName(fmt.Sprintf("fn%d", idx)), am.FuncOnce())
+		default:
+			opts = append(opts, am.FuncOnce())
+		}
 	}
 	var f *am.Func
 	var err error
@@ -469,6 +477,12 @@ func apiArg(l Label, v interface{}, variant int) am.Arg {
 		if variant == 5 {
 			l.Name = strings.ToUpper(l.Name)
 		}
+	}
+	if variant == 4 && v != nil {
+		// the value as a Value of the library, turned into an option by the library itself (Value.Arg)
+		rv := reflect.ValueOf(v)
+		val := am.Value{Name: l.Name, Type: rv.Type(), Subtype: l.Sub, Value: rv}
+		return val.Arg()
 	}
 	switch {
 	case l.Name != "" && l.Sub != "":
